@@ -170,9 +170,11 @@ func (in *Interp) assume(c Term) {
 // exclusive and jointly exhaustive under the path condition).
 func (in *Interp) choose(conds []Term) int {
 	pos := len(in.decisions)
+	in.sess.AtDecision(pos)
 	if pos < len(in.prefix) {
 		alt := in.prefix[pos]
 		in.decisions = append(in.decisions, alt)
+		in.sess.PushDecision(pos)
 		in.assume(conds[alt])
 		return alt
 	}
@@ -208,6 +210,7 @@ func (in *Interp) choose(conds []Term) int {
 		in.pending = append(in.pending, p)
 	}
 	in.decisions = append(in.decisions, alt)
+	in.sess.PushDecision(pos)
 	in.assume(conds[alt])
 	return alt
 }
@@ -225,28 +228,33 @@ func (in *Interp) concretize(t Term, what string) uint64 {
 	if t.C {
 		return t.U
 	}
+	pos := len(in.decisions)
+	in.sess.AtDecision(pos)
+	if pos < len(in.prefix) {
+		// replay: the decision records the value itself
+		v := uint64(in.prefix[pos])
+		in.decisions = append(in.decisions, in.prefix[pos])
+		in.sess.PushDecision(pos)
+		in.assume(tEq(t, mkBV(t.W, v)))
+		return v
+	}
 	const limit = 16
-	// replay: decision encodes the value index; we must recompute candidates deterministically
 	var vals []uint64
 	excl := []Term{}
 	for len(vals) < limit {
 		ex := tAnd(excl...)
-		r, m := in.sess.CheckModel(exprOrTrue(ex), nil, "feas")
-		if r != Sat {
-			break
-		}
-		_ = m
-		// ask value
 		out := in.sess.roundtrip("(push 1)\n" + assertIf(ex) + "(check-sat)\n(get-value (" + t.E + "))\n(pop 1)")
 		var v uint64
 		found := false
 		joined := strings.Join(out, " ")
-		if i := strings.LastIndex(joined, "#"); i >= 0 {
-			j := i
-			for j < len(joined) && joined[j] != ')' && joined[j] != ' ' {
-				j++
+		if !strings.Contains(joined, "unsat") && strings.Contains(joined, "sat") {
+			if i := strings.LastIndex(joined, "#"); i >= 0 {
+				j := i
+				for j < len(joined) && joined[j] != ')' && joined[j] != ' ' {
+					j++
+				}
+				v, found = decodeBV(joined[i:j])
 			}
-			v, found = decodeBV(joined[i:j])
 		}
 		if !found {
 			break
@@ -261,11 +269,16 @@ func (in *Interp) concretize(t Term, what string) uint64 {
 		panic(abort("concretize: too many values for " + what))
 	}
 	sort.Slice(vals, func(i, j int) bool { return vals[i] < vals[j] })
-	conds := make([]Term, len(vals))
-	for i, v := range vals {
-		conds[i] = tEq(t, mkBV(t.W, v))
+	for _, v := range vals[1:] {
+		p := make([]int, pos+1)
+		copy(p, in.decisions)
+		p[pos] = int(v)
+		in.pending = append(in.pending, p)
 	}
-	return vals[in.choose(conds)]
+	in.decisions = append(in.decisions, int(vals[0]))
+	in.sess.PushDecision(pos)
+	in.assume(tEq(t, mkBV(t.W, vals[0])))
+	return vals[0]
 }
 
 func exprOrTrue(t Term) string {
@@ -632,7 +645,11 @@ func (in *Interp) runDefers(fr *frame) {
 				}
 			}()
 			in.cur = fr
-			in.call(d.fn, d.args)
+			if b, ok := d.fn.(*ssa.Builtin); ok {
+				in.builtin(fr, b, &d.inst.Call, d.args)
+			} else {
+				in.call(d.fn, d.args)
+			}
 		}()
 	}
 	if fr.panicking {
